@@ -251,6 +251,46 @@ def check_case(pyhf, case, backend, precision, props, rng, model_cache):
                 pn = names.PARAMS[case["spec"]["poi"]]
                 if cfg.poi_name != pn or cfg.poi_index != cfg.par_slice(pn).start:
                     F.append(Finding("C12", "poi_index does not point at the POI's slice", {"case": slim}, tags_base + ["poi"]))
+        # ---- the workspace's data vector follows the same layout; build(model, data) reproduces both
+        try:
+            main_by_chan, g = {}, 0
+            for cname_abs, nb in case["_chan_nbins"]:
+                main_by_chan[names.CHANNELS[cname_abs]] = [fl(v) for v in case["main_data"][g:g + nb]]
+                g += nb
+            obs = [{"name": c, "data": main_by_chan[c]} for c in main_by_chan]
+            if rng:
+                rng.shuffle(obs)
+            ws_spec = {"channels": copy.deepcopy(ent["spec"]["channels"]), "observations": obs, "version": "1.0.0",
+                       "measurements": [{"name": "meas", "config": {"poi": ent["poi"] or "", "parameters": copy.deepcopy(ent["spec"]["parameters"])}}]}
+            ws_before = copy.deepcopy(ws_spec)
+            ws = pyhf.Workspace(ws_spec)
+            wm = ws.model(**kw)
+            wd = [float(x) for x in ws.data(wm)]
+            exp_d = [v for c in wm.config.channels for v in main_by_chan[c]] + [float(x) for x in wm.config.auxdata]
+            if ws_spec != ws_before:
+                F.append(Finding("C12", "Workspace() modified the caller's specification", {"case": slim}, tags_base + ["mutated", "workspace"]))
+            if wd != exp_d:
+                F.append(Finding("C12", "Workspace.data does not follow the model's channel order followed by its auxiliary data",
+                                 {"case": slim, "got": wd, "expected": exp_d}, tags_base + ["wsdata"]))
+            if list(wm.config.par_order) != order or [float(x) for x in wm.config.suggested_init()] != [float(x) for x in init]:
+                F.append(Finding("C12", "model built through Workspace.model differs from the model built from the same specification",
+                                 {"case": slim}, tags_base + ["wsmodel"]))
+            tags_b = tags_base + ["build"] + (["has_lumi"] if any(p["type"] == 2 for p in case["params"]) else []) + \
+                (["mixed_fixed"] if any(len(set(p["fixed"])) > 1 for p in case["params"]) else [])
+            try:
+                ws2 = pyhf.Workspace.build(model, wd)
+                m3 = ws2.model(**kw)
+                ok_b = (list(m3.config.par_order) == order and [float(x) for x in m3.config.suggested_init()] == [float(x) for x in init]
+                        and [tuple(map(float, b)) for b in m3.config.suggested_bounds()] == [tuple(map(float, b)) for b in bnds]
+                        and [bool(x) for x in m3.config.suggested_fixed()] == [bool(x) for x in fixed]
+                        and [float(x) for x in m3.config.auxdata] == [float(x) for x in cfg.auxdata]
+                        and [float(x) for x in ws2.data(m3)] == wd)
+                if not ok_b:
+                    F.append(Finding("C12", "Workspace.build(model, data) does not reproduce the model configuration and the data", {"case": slim}, tags_b))
+            except Exception as e:  # noqa: BLE001
+                F.append(Finding("C12", f"Workspace.build(model, data) round trip failed: {type(e).__name__}: {e}", {"case": slim}, tags_b + [f"exc:{type(e).__name__}"]))
+        except Exception as e:  # noqa: BLE001
+            F.append(Finding("C12", f"Workspace path failed on a well-formed specification: {type(e).__name__}: {e}", {"case": slim}, tags_base + ["workspace", f"exc:{type(e).__name__}"]))
         # implementation-shaped prediction (drift tier only)
         if order != [names.PARAMS[n] for n in case["impl"]["par_order"]]:
             drift.append(("HFModel.MkCfg", f"par_order {order} != predicted {[names.PARAMS[n] for n in case['impl']['par_order']]}"))
